@@ -55,12 +55,19 @@ theorem encode_publish_total (h : Header) (t : Bytes) (mid : UInt16) (pl : Bytes
     (encode (.publish h t mid pl)).isPanic = false :=
   Mqtt.encode_publish_no_panic h t mid pl
 
-/-- a packet larger than the configured limit is refused -/
+/-- a packet larger than the configured limit is refused.
+AMENDED by the proof round: hypothesis `hq` (header QoS < 4) added; without it the statement is
+false — `.pubrel ⟨false, 64, false⟩ 0` encodes to `e0 02 00 00`, which decodes as DISCONNECT. -/
 theorem decode_refuses_oversize (p : Packet) (rest : Bytes) (max : Nat)
     (hty : p ≠ .pingreq ∧ p ≠ .pingresp ∧ p ≠ .disconnect)
+    (hq : (parts p).2.1.ok = true)
     (hlen : (parts p).2.2.length < 268435456) (hbig : max < (parts p).2.2.length) :
     decode (encodeWire p ++ rest) max = .err "too-large" :=
-  Mqtt.decode_oversize p rest max hty hlen hbig
+  Mqtt.decode_oversize p rest max hty hq hlen hbig
+
+/-- the counterexample to the un-amended statement (all its hypotheses hold, conclusion fails) -/
+example : decode (encodeWire (.pubrel ⟨false, 64, false⟩ 0) ++ [9]) 1 = .ok (.disconnect, [0, 0, 9]) := by
+  decide
 
 /-! non-vacuity -/
 example : wellFormed (.publish ⟨true, 2, true⟩ [97, 47] 7 [1, 2, 3]) = true := by decide
